@@ -3,7 +3,31 @@ mod props;
 mod run;
 mod wire;
 
+use std::alloc::{GlobalAlloc, Layout, System};
 use std::io::{BufRead, Write};
+use std::sync::atomic::{AtomicU64, Ordering};
+
+/// Counting allocator: the deterministic work measure the property names (heap allocations per call).
+pub struct Counting;
+pub static ALLOCS: AtomicU64 = AtomicU64::new(0);
+unsafe impl GlobalAlloc for Counting {
+    unsafe fn alloc(&self, layout: Layout) -> *mut u8 {
+        ALLOCS.fetch_add(1, Ordering::Relaxed);
+        unsafe { System.alloc(layout) }
+    }
+    unsafe fn dealloc(&self, ptr: *mut u8, layout: Layout) {
+        unsafe { System.dealloc(ptr, layout) }
+    }
+    unsafe fn realloc(&self, ptr: *mut u8, layout: Layout, new_size: usize) -> *mut u8 {
+        ALLOCS.fetch_add(1, Ordering::Relaxed);
+        unsafe { System.realloc(ptr, layout, new_size) }
+    }
+}
+#[global_allocator]
+static GLOBAL: Counting = Counting;
+pub fn allocs() -> u64 {
+    ALLOCS.load(Ordering::Relaxed)
+}
 
 fn main() {
     let args: Vec<String> = std::env::args().collect();
